@@ -139,7 +139,11 @@ def gen_sig(r, idx, aggs):
     s.params = [pick() for _ in range(n)]
     s.ret = 'void' if r.random() < 0.12 else pick()
     s.variadic = []
-    if n and r.random() < 0.25:
+    s.isvar = False
+    if n and r.random() < 0.1:
+        s.isvar = True        # variadic callee called without variable arguments
+    elif n and r.random() < 0.25:
+        s.isvar = True
         for _ in range(r.randrange(1, 7)):
             if aggs and r.random() < 0.25:
                 s.variadic.append(r.choice(aggs).cname)
@@ -168,7 +172,7 @@ def decl_of(ty, name):
 
 def proto(s):
     ps = [decl_of(t, 'a%d' % k) for k, t in enumerate(s.params)]
-    if s.variadic:
+    if s.isvar:
         ps.append('...')
     plist = ', '.join(ps) or 'void'
     if '(*)' in s.ret:
@@ -178,7 +182,7 @@ def proto(s):
 
 def callee_text(s):
     out = [proto(s), '{']
-    if s.variadic:
+    if s.isvar:
         out.append('\t__builtin_va_list ap; __builtin_va_start(ap, a%d);' % (len(s.params) - 1))
     for k, t in enumerate(s.params + s.variadic):
         var = 'a%d' % k
@@ -186,7 +190,7 @@ def callee_text(s):
             out.append('\t%s = __builtin_va_arg(ap, %s);' % (decl_of(t, var), t if '(*)' not in t else 'int (*)(void)'))
         for j, (acc, ty, c) in enumerate(s.argvals[k]):
             out.append('\tif (%s != %s) vf_fail(%d, %d, %d);' % (acc.replace('V', var, 1), c, s.idx, k, j))
-    if s.variadic:
+    if s.isvar:
         out.append('\t__builtin_va_end(ap);')
     if s.ret != 'void':
         out.append('\t%s;' % decl_of(s.ret, 'r'))
@@ -403,15 +407,36 @@ def structural(exe, aggs, d, files):
     return recs, flagged
 
 
+def fixed_aggs():
+    """hand-written corner cases, always part of the structural comparison"""
+    M = gen_types.Member
+    A = gen_types.Agg
+    out = [
+        A('FZ0', 'struct', [M('a', 'char a', 'scalar', ty='char'), M(None, 'int : 0', 'bitfield', ty='int', width=0), M('b', 'char b', 'scalar', ty='char')]),
+        A('FZ1', 'struct', [M('c', 'char c', 'scalar', ty='char'), M(None, 'long long : 0', 'bitfield', ty='long long', width=0)]),
+        A('FZ2', 'struct', [M('f', 'float f', 'scalar', ty='float'), M(None, 'long : 0', 'bitfield', ty='long', width=0), M('g', 'float g', 'scalar', ty='float')]),
+        A('FZ3', 'struct', [M('s', 'short s', 'scalar', ty='short'), M(None, 'long long : 3', 'bitfield', ty='long long', width=3)]),
+        A('FZ4', 'union', [M('s', 'short s', 'scalar', ty='short'), M(None, 'long : 0', 'bitfield', ty='long', width=0)]),
+        A('FZ5', 'struct', [M('d', 'double d[2][2]', 'array', ty='double', dims=[2, 2])]),
+        A('FZ6', 'struct', [M('f', 'float f[2][2]', 'array', ty='float', dims=[2, 2]), M('c', 'char c[3][2][1]', 'array', ty='char', dims=[3, 2, 1])]),
+        A('FZ7', 'struct', [M('x', 'float x', 'scalar', ty='float'), M('y', 'float y', 'scalar', ty='float'), M('z', 'float z', 'scalar', ty='float')]),
+        A('FZ8', 'struct', [M('d', 'double d', 'scalar', ty='double'), M('i', 'int i', 'scalar', ty='int')]),
+        A('FZ9', 'struct', [M('b', 'int b : 3', 'bitfield', ty='int', width=3, bits=32), M('d', 'double d', 'scalar', ty='double')]),
+    ]
+    out.append(A('FZ10', 'struct', [M('e', 'struct FZ0 e[2]', 'array', ty='struct FZ0', agg=out[0], dims=[2]), M('c', 'char c', 'scalar', ty='char')]))
+    out.append(A('FZ11', 'union', [M('a', 'struct FZ7 a', 'agg', agg=out[7]), M('d', 'double d[2][1]', 'array', ty='double', dims=[2, 1])]))
+    return out
+
+
 def _batch(args):
-    exe, wd, seed, tier = args
+    exe, wd, seed, tier = args[:4]
     r = random.Random(seed)
     tag = 'b%x' % seed
     d = os.path.join(wd, 'c08' + tag)
     os.makedirs(d, exist_ok=True)
     recs = []
     aggs, sigs, header, caller, callee = unit(r, 12 if tier == 'quick' else 16)
-    srecs, flagged = structural(exe, aggs, d, {})
+    srecs, flagged = structural(exe, aggs + (fixed_aggs() if len(args) > 4 and args[4] else []), d, {})
     if srecs and 'harness' in srecs[0]:
         return srecs
     recs += srecs
@@ -483,7 +508,7 @@ def _batch(args):
                 if s.idx in refbad:
                     recs.append({'kind': 'refskip'})
                     continue
-                recs.append({'kind': 'call', 'dir': direction, 'ok': True, 'sig': s.idx, 'nparam': len(s.params), 'variadic': bool(s.variadic), 'aggs': sum(1 for t in s.params + s.variadic + [s.ret] if t in s.aggs)})
+                recs.append({'kind': 'call', 'dir': direction, 'ok': True, 'sig': s.idx, 'nparam': len(s.params), 'variadic': bool(s.isvar), 'aggs': sum(1 for t in s.params + s.variadic + [s.ret] if t in s.aggs)})
             continue
         # run every signature on its own to attribute failures and crashes
         for s in sigs:
@@ -492,7 +517,7 @@ def _batch(args):
                 continue
             r1 = common.run([exe2, str(s.idx)], timeout=20, env=env, stack=64 << 20)
             ok = r1.status == 0 and b'DONE fails=0' in r1.out
-            rec = {'kind': 'call', 'dir': direction, 'ok': ok, 'sig': s.idx, 'nparam': len(s.params), 'variadic': bool(s.variadic), 'aggs': sum(1 for t in s.params + s.variadic + [s.ret] if t in s.aggs)}
+            rec = {'kind': 'call', 'dir': direction, 'ok': ok, 'sig': s.idx, 'nparam': len(s.params), 'variadic': bool(s.isvar), 'aggs': sum(1 for t in s.params + s.variadic + [s.ret] if t in s.aggs)}
             if not ok:
                 types = set(t for t in s.params + s.variadic + [s.ret] if t in s.aggs)
                 rec['detail'] = 'status=%s signal=%s %s %s' % (r1.status, r1.signal, r1.out[-200:].decode('latin-1'), r1.err[:300].decode('latin-1'))
@@ -514,7 +539,7 @@ def run(tier):
     rng = common.rng(PID)
     wd = common.scratch()
     nb = 48 if tier == 'quick' else 1600
-    work = [(exe, wd, rng.getrandbits(40), tier) for _ in range(nb)]
+    work = [(exe, wd, rng.getrandbits(40), tier, k == 0) for k in range(nb)]
     for lst in common.pmap(_batch, work):
         for rec in lst:
             if 'harness' in rec:
